@@ -471,6 +471,17 @@ func genM1(r *rand.Rand, p Profile, id string) Case {
 				}
 			}
 			t.versions = keep
+		case "wsave":
+			ops = append(ops, []string{"wsave"})
+			nv := t.cur + 1
+			if t.cur == 0 && iv > 0 {
+				nv = iv
+			}
+			if !t.has(nv) {
+				t.versions = append(t.versions, nv)
+				t.cur = nv
+			}
+			t.dirty = false
 		case "crashsave":
 			ops = append(ops, []string{"crash", "save"})
 			nv := t.cur + 1
@@ -648,6 +659,7 @@ func genM1(r *rand.Rand, p Profile, id string) Case {
 			for _, k := range g.pool {
 				ops = append(ops, []string{"r", tg, "proof", hx(k)})
 			}
+			ops = append(ops, []string{"r", tg, "proofbytes", hx(g.key())}, []string{"r", tg, "proofbytes", hx(g.probe())})
 			for i := 0; i < 4; i++ {
 				ops = append(ops, []string{"r", tg, "proof", hx(g.probe())})
 			}
